@@ -3,5 +3,5 @@ import enginecheck as ec
 from props import engcommon
 LEVEL = 'proof'; TRUSTED = engcommon.TRUSTED_ENGINE; ASSUMPTIONS = engcommon.ASSUMPTIONS_ENGINE
 def run(ctx):
-    engcommon.run_engine_property(ctx, 'C04', [('start-order', lambda h, st, b, prev: ec.oracle_c04(h, st, b))], faults=0.15,
+    engcommon.run_engine_property(ctx, 'C04', plan_accept=600, oracles=[('start-order', lambda h, st, b, prev: ec.oracle_c04(h, st, b))], faults=0.15,
                                   feat=dict(subdirs=0.5, rsp=0.4, orderonly=0.5, dyndep=0.3))
